@@ -62,6 +62,34 @@ def oracle_trace(data):
         return {"trace": "opcode report differs", "reported": names, "expected": expected}
     if ast.unparse(traced) != plain:
         return {"trace": "traced AST differs from untraced decompilation"}
+    # passivity towards the traced OBJECT: tracing it the way `fickling --trace` does for the 2nd member of
+    # a stack (own variable numbering / result name), and running a finished trace again after an edit, must
+    # not change what the Pickled itself decompiles to afterwards
+    try:
+        p2 = Pickled.load(data)
+        with contextlib.redirect_stdout(io.StringIO()):
+            tr = Trace(Interpreter(p2, first_variable_id=3, result_variable="result1"))
+            tr.run()
+        after = ast.unparse(p2.ast)
+        if after != plain:
+            return {"trace": "after tracing, the traced Pickled decompiles differently", "before": plain[:300],
+                    "after": after[:300]}
+        p3 = Pickled.load(data)
+        with contextlib.redirect_stdout(io.StringIO()):
+            tr3 = Trace(Interpreter(p3))
+            tr3.run()
+            first = p3[0]
+            p3.insert(0, first)         # an edit pair that leaves the opcode list as it was ...
+            del p3[0]                   # ... but goes through the cache-resetting primitives
+            ref = ast.unparse(Pickled(list(p3)).ast)
+            try:
+                tr3.run()                                          # a finished trace, run again
+            except Exception:
+                pass
+        if ast.unparse(p3.ast) != ref:
+            return {"trace": "running a finished trace again changed what the Pickled decompiles to"}
+    except RecursionError:
+        pass
     return None
 
 
